@@ -5,13 +5,24 @@ pub mod c04_jump;
 pub mod c12_stack;
 pub mod c13_gas;
 pub mod c27_bytecode;
+pub mod c28_inspectors;
 pub mod c32_blob;
+pub mod online;
+pub mod online_props;
 
 pub fn dispatch(ctx: &Ctx) -> i32 {
     match ctx.id.as_str() {
         "C03" => c03_arith::run(ctx),
         "C04" => c04_jump::run(ctx),
         "C27" => c27_bytecode::run(ctx),
+        "C06" => online_props::run_c06_online(ctx, None),
+        "C07" => online_props::run_c07(ctx),
+        "C08" => online_props::run_c08(ctx),
+        "C09" => online_props::run_c09(ctx),
+        "C10" => online_props::run_c10(ctx),
+        "C28" => online_props::run_c28(ctx),
+        "C29" => online_props::run_c29(ctx),
+        "C30" => online_props::run_c30(ctx),
         "C12" => c12_stack::run(ctx),
         "C13" => c13_gas::run(ctx),
         "C32" => c32_blob::run(ctx),
